@@ -142,6 +142,15 @@ def run(F, R, tier):
             r4.require(has_only_data(ao), (rfn, "decode-arg"), "JSON is not decoded from the length-delimited slice of the input")
     r4.floor(1)
 
+    # ------------------------------------------------------------------ R5 what the packed JSON omits is restored
+    r5 = R.rule("C14-R5", "T12", "every member the serialiser may omit from the packed document / metadata is restored to the very value that was omitted: Option members are skipped only by Option::is_none, collections only when empty and with #[serde(default)] (a predicate that also skips Some(false) or 0 would lose it in the pack/unpack round trip)")
+    n5 = 0
+    for ty in ("identity_iota_core::document::iota_document_metadata::IotaDocumentMetadata", "identity_iota_core::state_metadata::document::StateMetadataDocument",
+               "identity_document::document::core_document::CoreDocumentData"):
+        n5 += L.serde_skip_inverse(r5, F, ty)
+    r5.floor(14)
+
+
     # ------------------------------------------------------------------ R2 rewrite coverage
     r2 = R.rule("C14-R2", "T5", "CoreDocumentData::try_map transforms every DID-bearing field with its own closure (id, controller, the six method sets, service) and passes the other fields through")
     fields = F.adt_fields(CDD)
